@@ -319,6 +319,10 @@ def blueprint_text(spec):
             aheights = heights[:k] + [heights[k - 1]] + heights[k:]
         lines.append(f"    {name}:")
         lines.append(f"        specifier: {spec_id}")
+        if spec.get("nozzle"):
+            # parameters the assembly design states itself (category "assign in blueprints")
+            lines.append(f"        nozzleType: {'Inner' if spec_id == 'IC' else 'Outer'}")
+            lines.append(f"        crCurrentElevation: {10.0 if spec_id == 'IC' else 20.0}")
         lines.append(f"        blocks: [{', '.join(ablocks)}]")
         if aheights is None:
             lines.append("        height: *hts")
